@@ -772,109 +772,148 @@ pub fn run(args: &Args) -> ! {
     let cn = Counters { best: Default::default(), not_reproduced: 0.into(), panics: 0.into() };
     let quick = args.tier == Tier::Quick;
 
-    // ---- phase 1: one comment. Bound iterated upward over skeleton lines n (text lines = n or n+1).
-    let mut completed1: Option<usize> = None;
-    let mut skeletons = 0u64;
-    for n in 0..=max_lines {
-        let total = pow(LINES.len() as u64, n as u32);
-        // quick tier: at the largest skeleton size only programs without a final newline
-        let nls: &[bool] = if quick && n == max_lines { &[false] } else { &[false, true] };
-        let (st, ok) = par_range(total, args.threads, &dl, |i, st| {
-            let mut w = Vec::new();
-            decode_word(i, LINES.len() as u64, n, &mut w);
-            let lines: Vec<L> = w.iter().map(|&x| LINES[x]).collect();
-            if !valid_skeleton(&lines) {
-                return;
-            }
-            st.outcome("skeleton");
-            for (pos, trailing, indent) in placements(&lines, n + 1 <= max_lines, n <= max_lines, &[false, true]) {
-                for kind in 0..KINDS.len() {
-                    for codes in 0..CODES.len() {
-                        for &final_nl in nls {
-                            let case = Case { lines: lines.clone(), cms: vec![Cm { kind, codes, pos, trailing, indent }], final_nl };
-                            run_one(&case, st, &cn, (i + pos as u64) % 97 == 0);
-                        }
-                    }
-                }
-            }
-        });
-        skeletons += st.outcomes.get("skeleton").copied().unwrap_or(0);
-        all.merge(st);
-        if ok {
-            completed1 = Some(n);
-        } else {
-            break;
-        }
+    // One schedule over both sub-spaces, ordered by size, so that a wall cap cuts the largest
+    // sub-space and never a whole phase: singles with exactly t text lines (S t) and pairs with exactly
+    // t text lines (P t); every smaller size of both is finished before the largest size of either.
+    #[derive(Clone, Copy, PartialEq)]
+    enum Step {
+        S(usize),
+        P(usize),
     }
-    all.outcomes.remove("skeleton");
-
-    // ---- phase 2: two comments (all ordered pairs of kind × code list), text lines ≤ pair_lines
+    let small = max_lines.saturating_sub(2).min(pair_lines.saturating_sub(1));
+    let mut schedule: Vec<Step> = Vec::new();
+    for t in 0..=small {
+        schedule.push(Step::S(t));
+    }
+    for t in 0..=small.min(pair_lines) {
+        schedule.push(Step::P(t));
+    }
+    let mut t = small + 1;
+    while t <= max_lines || t <= pair_lines {
+        if t <= max_lines && t < max_lines.max(pair_lines + 1) {
+            schedule.push(Step::S(t));
+        }
+        if t <= pair_lines {
+            schedule.push(Step::P(t));
+        }
+        if t <= max_lines && t >= max_lines.max(pair_lines + 1) {
+            schedule.push(Step::S(t));
+        }
+        t += 1;
+    }
+    let mut completed1: Option<usize> = None;
     let mut completed2: Option<usize> = None;
+    let mut skeletons = 0u64;
     let mut pair_skeletons = 0u64;
-    if completed1 == Some(max_lines) {
-        for n in 0..=pair_lines {
-            let total = pow(LINES.len() as u64, n as u32);
-            let (st, ok) = par_range(total, args.threads, &dl, |i, st| {
-                let mut w = Vec::new();
-                decode_word(i, LINES.len() as u64, n, &mut w);
-                let lines: Vec<L> = w.iter().map(|&x| LINES[x]).collect();
-                if !valid_skeleton(&lines) {
-                    return;
-                }
-                st.outcome("skeleton");
-                let pl = placements(&lines, true, true, &[false]);
-                // every ordered pair of placements; `valid` keeps exactly the text-ordered ones
-                for a in pl.iter() {
-                    for b in pl.iter() {
-                        let own = (!a.1) as usize + (!b.1) as usize;
-                        if n + own > pair_lines {
-                            continue;
+    let mut steps_done: Vec<String> = Vec::new();
+    'schedule: for step in schedule.iter().copied() {
+        match step {
+            // singles with exactly t text lines: skeletons of t lines with a trailing comment,
+            // skeletons of t-1 lines with a comment on its own line
+            Step::S(t) => {
+                for n in t.saturating_sub(1)..=t {
+                    let own = n + 1 == t;
+                    if !own && n != t {
+                        continue;
+                    }
+                    let total = pow(LINES.len() as u64, n as u32);
+                    // quick tier: at the largest skeleton size only programs without a final newline
+                    let nls: &[bool] = if quick && n == max_lines { &[false] } else { &[false, true] };
+                    let (st, ok) = par_range(total, args.threads, &dl, |i, st| {
+                        let mut w = Vec::new();
+                        decode_word(i, LINES.len() as u64, n, &mut w);
+                        let lines: Vec<L> = w.iter().map(|&x| LINES[x]).collect();
+                        if !valid_skeleton(&lines) {
+                            return;
                         }
-                        for ka in 0..KINDS.len() {
-                            for &ca in &PAIR_CODES {
-                                for kb in 0..KINDS.len() {
-                                    for &cb in &PAIR_CODES {
-                                        let case = Case {
-                                            lines: lines.clone(),
-                                            cms: vec![
-                                                Cm { kind: ka, codes: ca, pos: a.0, trailing: a.1, indent: a.2 },
-                                                Cm { kind: kb, codes: cb, pos: b.0, trailing: b.1, indent: b.2 },
-                                            ],
-                                            final_nl: false,
-                                        };
-                                        if !case.valid() {
-                                            continue;
-                                        }
-                                        run_one(&case, st, &cn, (i + ka as u64 + kb as u64) % 89 == 0);
+                        st.outcome("skeleton");
+                        for (pos, trailing, indent) in placements(&lines, own, !own, &[false, true]) {
+                            for kind in 0..KINDS.len() {
+                                for codes in 0..CODES.len() {
+                                    for &final_nl in nls {
+                                        let case = Case { lines: lines.clone(), cms: vec![Cm { kind, codes, pos, trailing, indent }], final_nl };
+                                        run_one(&case, st, &cn, (i + pos as u64) % 97 == 0);
                                     }
                                 }
                             }
                         }
+                    });
+                    skeletons += st.outcomes.get("skeleton").copied().unwrap_or(0);
+                    all.merge(st);
+                    if !ok {
+                        break 'schedule;
                     }
                 }
-            });
-            pair_skeletons += st.outcomes.get("skeleton").copied().unwrap_or(0);
-            all.merge(st);
-            if ok {
-                completed2 = Some(n);
-            } else {
-                break;
+                completed1 = Some(t);
+                steps_done.push(format!("S{t}"));
+            }
+            // pairs with exactly t text lines: skeleton lines + comments on their own line == t
+            Step::P(t) => {
+                for n in t.saturating_sub(2)..=t {
+                    let total = pow(LINES.len() as u64, n as u32);
+                    let (st, ok) = par_range(total, args.threads, &dl, |i, st| {
+                        let mut w = Vec::new();
+                        decode_word(i, LINES.len() as u64, n, &mut w);
+                        let lines: Vec<L> = w.iter().map(|&x| LINES[x]).collect();
+                        if !valid_skeleton(&lines) {
+                            return;
+                        }
+                        st.outcome("skeleton");
+                        let pl = placements(&lines, true, true, &[false]);
+                        // every ordered pair of placements; `valid` keeps exactly the text-ordered ones
+                        for a in pl.iter() {
+                            for b in pl.iter() {
+                                let own = (!a.1) as usize + (!b.1) as usize;
+                                if n + own != t {
+                                    continue;
+                                }
+                                for ka in 0..KINDS.len() {
+                                    for &ca in &PAIR_CODES {
+                                        for kb in 0..KINDS.len() {
+                                            for &cb in &PAIR_CODES {
+                                                let case = Case {
+                                                    lines: lines.clone(),
+                                                    cms: vec![
+                                                        Cm { kind: ka, codes: ca, pos: a.0, trailing: a.1, indent: a.2 },
+                                                        Cm { kind: kb, codes: cb, pos: b.0, trailing: b.1, indent: b.2 },
+                                                    ],
+                                                    final_nl: false,
+                                                };
+                                                if !case.valid() {
+                                                    continue;
+                                                }
+                                                run_one(&case, st, &cn, (i + ka as u64 + kb as u64) % 89 == 0);
+                                            }
+                                        }
+                                    }
+                                }
+                            }
+                        }
+                    });
+                    pair_skeletons += st.outcomes.get("skeleton").copied().unwrap_or(0);
+                    all.merge(st);
+                    if !ok {
+                        break 'schedule;
+                    }
+                }
+                completed2 = Some(t);
+                steps_done.push(format!("P{t}"));
             }
         }
-        all.outcomes.remove("skeleton");
     }
+    all.outcomes.remove("skeleton");
 
     for (_, (v, n)) in std::mem::take(&mut *cn.best.lock().unwrap()) {
         all.violations.insert(format!("{}:{}", v.signature, v.witness), (v, n));
     }
 
     rep.rule = format!(
-        "Skeletons: one statement per line over {{BLANK, `gN()` at column 0, indented `gN()`, `local uN = 1`, `local vN = gN()` (two codes on one line), `do`, `if gN then`, `end`}}, balanced, depth ≤ 2. (1) ONE comment: every skeleton of ≤{max_lines} text lines × every `---@diagnostic` comment of kinds {KINDS:?} × code lists {{none, undefined-global, unused, deprecated (non-matching), undefined-global+unused, unused+deprecated}} × every placement (own line before each line / after the last, indented or not; trailing after each non-blank line) × {{without, with}} final newline{}. (2) TWO comments: every skeleton of ≤{pair_lines} text lines × every ordered pair of (kind × code list in {{none, undefined-global, unused}}) × every pair of placements in text order (own line / trailing, two own-line comments may be adjacent), no final newline. Oracle: diagnostics with the comment(s) == diagnostics with every comment turned into a same-length plain comment, minus exactly the union over the comments of {{listed code (any code if no list) ∧ line is the next line (disable-next-line) / the comment's line (disable-line) / inside the enclosing block, whole file at top level (disable)}}; multisets, both directions. non-trivial = the program has at least one diagnostic. A violating case is minimised (same failure direction), confirmed in a fresh analysis, and reported under the least minimal witness of its signature.",
+        "Skeletons: one statement per line over {{BLANK, `gN()` at column 0, indented `gN()`, `local uN = 1`, `local vN = gN()` (two codes on one line), `do`, `if gN then`, `end`}}, balanced, depth ≤ 2. (1) ONE comment: every skeleton of ≤{max_lines} text lines × every `---@diagnostic` comment of kinds {KINDS:?} × code lists {{none, undefined-global, unused, deprecated (non-matching), undefined-global+unused, unused+deprecated}} × every placement (own line before each line / after the last, indented or not; trailing after each non-blank line) × {{without, with}} final newline{}. (2) TWO comments: every skeleton of ≤{pair_lines} text lines × every ordered pair of (kind × code list in {{none, undefined-global, unused}}) × every pair of placements in text order (own line / trailing, two own-line comments may be adjacent), no final newline. Oracle: diagnostics with the comment(s) == diagnostics with every comment turned into a same-length plain comment, minus exactly the union over the comments of {{listed code (any code if no list) ∧ line is the next line (disable-next-line) / the comment's line (disable-line) / inside the enclosing block, whole file at top level (disable)}}; multisets, both directions. non-trivial = the program has at least one diagnostic. Both sub-spaces are run in one schedule ordered by text-line count (S0..S{small}, P0..P{small}, then sizes upward, the largest of each last) so a wall cap cuts only the largest sizes. A violating case is minimised (same failure direction), confirmed in a fresh analysis, and reported under the least minimal witness of its signature.",
         if quick { format!(" (quick: skeletons of exactly {max_lines} lines only without)") } else { String::new() }
     );
     rep.exhaustive = completed1 == Some(max_lines) && completed2 == Some(pair_lines);
-    rep.bounds = json!({"max_text_lines_one_comment": max_lines, "skeleton_lines_completed_one_comment": completed1, "skeletons_one_comment": skeletons,
-        "max_text_lines_two_comments": pair_lines, "skeleton_lines_completed_two_comments": completed2, "skeletons_two_comments": pair_skeletons,
+    rep.bounds = json!({"max_text_lines_one_comment": max_lines, "text_lines_completed_one_comment": completed1, "skeletons_one_comment": skeletons,
+        "max_text_lines_two_comments": pair_lines, "text_lines_completed_two_comments": completed2, "schedule_completed": steps_done, "skeletons_two_comments": pair_skeletons,
         "line_alphabet": LINES.len(), "comment_kinds": KINDS.len(), "code_lists": CODES.len(), "pair_code_lists": PAIR_CODES.len(),
         "wall_cap_s": args.wall_cap_s, "wall_cap_hit": dl.was_hit()});
     rep.assumptions = vec![
